@@ -59,6 +59,60 @@ def sameSlab : Slab → Slab → Bool
   | .storableG id s, .storableG id' s' => id == id' && sameStor s s'
   | _, _ => false
 
+/-! ### the side conditions of the theorems `C07.world_*` (AtreeProofs/Props/C07World.lean), evaluated at run time -/
+
+mutual
+/-- nesting levels the CBOR validator needs (`Stor.vneedI`, AtreeProofs/Codec/InlDefs.lean) -/
+def needSt : Stor → Nat
+  | .val _ _ => 1
+  | .ref _ => 1
+  | .some s => needSt s + 1
+  | .arr _ _ es => needSts es + 3
+  | .map _ _ els => needMEls els + 2
+def needSts : List Stor → Nat
+  | [] => 0
+  | s :: ss => max (needSt s) (needSts ss)
+def needSEl : SEl → Nat
+  | .mk k v => max (needSt k) (needSt v) + 1
+def needMEl : MEl → Nat
+  | .single e => needSEl e
+  | .inl els => needMEls els + 1
+  | .ext _ => 2
+def needMEls : MEls → Nat
+  | .hkey _ _ es => needMElList es + 2
+  | .single _ es => needSElList es + 2
+def needMElList : List MEl → Nat
+  | [] => 0
+  | e :: es => max (needMEl e) (needMElList es)
+def needSElList : List SEl → Nat
+  | [] => 0
+  | e :: es => max (needSEl e) (needSElList es)
+end
+
+/-- `(nesting within the limit, at most 256 shared extra-data entries)` for the slab -/
+def sideOf : Slab → Bool × Bool
+  | .adata a => (needSts a.elems + 1 ≤ maxNestedLevels, (encSts a.elems []).2.length ≤ 256)
+  | .mdata m => (needMEls m.els ≤ maxNestedLevels, (encMEls m.els []).2.length ≤ 256)
+  | _ => (true, true)
+
+/-- the 16 bytes of an undefined sibling link that a non-root data slab does not write -/
+def omittedOf : Slab → Nat
+  | .data _ d => if !d.root && d.next == SlabID.undef then 16 else 0
+  | .adata a => if a.ty.isNone && a.next == SlabID.undef then 16 else 0
+  | .mdata m => if m.extra.isNone && m.next == SlabID.undef then 16 else 0
+  | _ => 0
+
+/-- the conclusions of the theorems, evaluated on the translation when its side conditions hold:
+    `DecodeSlab (EncodeSlab sl) = sl` and the length law (an equality: no compact maps) -/
+def theoremCheck (tr : Slab) : Option String :=
+  let enc := encodeSlab tr
+  if enc.length + omittedOf tr != tr.byteSize + tr.extraDataLen then
+    some s!"length law fails on the translation: {enc.length} + {omittedOf tr} vs {tr.byteSize} + {tr.extraDataLen}"
+  else
+    match (decodeSlab tr.id enc).run with
+    | .ok s' _ => if sameSlab s' tr then none else some "DecodeSlab (EncodeSlab sl) differs from sl for the translation"
+    | _ => some "the model decoder rejects the encoding of the translation"
+
 /-- the codec-level slab the model expects under `id`: the translation of the world, or a
     large-value slab created by the container code (`aux`, plain values only) -/
 def expectedSlab (heap : List (SlabID × Slab)) (aux : AList SlabID Elem) (id : SlabID) : Option Slab :=
@@ -66,18 +120,23 @@ def expectedSlab (heap : List (SlabID × Slab)) (aux : AList SlabID Elem) (id : 
   | some sl => some sl
   | none => (AList.find? aux id).map (fun e => .storable id e)
 
-/-- one `SLB <dump>` line: `none` = agreement, `some msg` = what differs -/
-def checkSLB (heap : List (SlabID × Slab)) (aux : AList SlabID Elem) (dump : String) : Option String :=
+/-- one `SLB <dump>` line: `(none, tags)` = agreement, `(some msg, tags)` = what differs; the tags
+    count how often a side condition of the theorems does not hold on a stored slab -/
+def checkSLB (heap : List (SlabID × Slab)) (aux : AList SlabID Elem) (dump : String) : Option String × List String :=
   match parseDump dump with
-  | none => some s!"cannot parse the implementation's dump {CodecState.short dump}"
+  | none => (some s!"cannot parse the implementation's dump {CodecState.short dump}", [])
   | some sl =>
     match expectedSlab heap aux sl.id with
-    | none => some s!"World.toCodec has no slab {sl.id.render}, implementation stored {CodecState.short dump}"
+    | none => (some s!"World.toCodec has no slab {sl.id.render}, implementation stored {CodecState.short dump}", [])
     | some tr =>
       if !sameSlab tr sl then
-        some s!"World.toCodec differs from the slab parsed from the implementation's dump\n  model: {CodecState.short (dumpSlab tr)}\n  impl : {CodecState.short dump}"
+        (some s!"World.toCodec differs from the slab parsed from the implementation's dump\n  model: {CodecState.short (dumpSlab tr)}\n  impl : {CodecState.short dump}", [])
       else if dumpSlab tr != dump then
-        some s!"World.toCodec dumps as {CodecState.short (dumpSlab tr)}, implementation's dump is {CodecState.short dump}"
-      else none
+        (some s!"World.toCodec dumps as {CodecState.short (dumpSlab tr)}, implementation's dump is {CodecState.short dump}", [])
+      else
+        let side := sideOf tr
+        let tags := (if side.1 then [] else ["SLB:side:nesting>32"]) ++ (if side.2 then [] else ["SLB:side:entries>256"])
+        if side.1 && side.2 then ((theoremCheck tr).map (fun m => m ++ ": " ++ CodecState.short dump), ["SLB:thm"])
+        else (none, tags)
 
 end Atree.Replay
